@@ -3,7 +3,7 @@ CORR = ('Tie to the code, both ways, on every run: (1) differential corresponden
         'generators, with a sample re-evaluated inside the kernel; (2) regeneration from the source text: tables/constants (py/srcfacts.py) and the '
         'control flow of 161 functions (py/rs2v translator: decoders, encoders, bitmask constructors/accessors, SliceReader, VecWriter, AVP::hide, AVP::reveal) are re-derived from '
         '/repo and kernel-checked against the Model; the linked regenerated decoder / encoder / reader / hide / reveal are proved equal to the Model on '
-        'every input and the property theorems are re-proved of them (G_C01..G_C06, G_C11..G_C13, G_C17, G_C18). ')
+        'every input and the property theorems are re-proved of them (G_C01..G_C15, G_C17, G_C18). ')
 TB = ('Trusted: Coq 8.16.1 kernel incl. vm_compute; extraction (ExtrOcamlBasic only) + ocamlopt + driver.ml; Rust harness, Python generators/differ; '
       'the translator py/rs2v and its representation tables; '
       'modelled-not-verified: md5 crate, from_utf8, slice/Vec primitives (their meaning is Model/VecOps.v), proc-macro expansions.')
